@@ -207,7 +207,7 @@ class Memory(Backend):
             return default
         self.store.move_to_end(key)
         expire_at, value = self.store[key]
-        if expire_at and expire_at < time.time():
+        if expire_at and expire_at <= time.time():
             await self._delete(key)
             return default
         if not self._serializer:
